@@ -391,3 +391,61 @@ Proof. intros (W & d & Hd & Hs & Hdl & HI) NI.
       [split; [split; [exact W|]; exists d; auto | split; [apply Buf1; auto | discriminate]]|].
     destruct (x_ensure ROps (s_env s) x') as [fd x'']. cbn [fst snd].
     split; [split; [exact W|]; exists d; split; [apply Keep; auto|auto] | split; [apply Buf1; apply Keep; auto | discriminate]]. Qed.
+
+(** the claim about a whole run of Delay measure j: the stored buffer changes only at an auto-update in a state where the
+    measure has been realized (then it becomes copyInAndUpdate of itself with the current sample), stays strictly increasing
+    in time, and every getValue returns calcValueAtTimeLinearOnly at (t - delay) on the buffer that was in the state when the
+    value was first computed at the current time *)
+Fixpoint d_run_ok (s : St) j (delay : R) (bv : Buf) (ops : list Op) : Prop :=
+  match ops with
+  | [] => True
+  | op :: r =>
+      (forall d d', dmach s j = Some d -> dmach (fst (step ROps s op)) j = Some d' ->
+                    d_buf d' = dbuf_step s j op (d_buf d) /\ sorted (d_buf d')) /\
+      (op = GetM j -> (4 <= e_stage (s_env s))%nat ->
+       snd (step ROps s op) = match calc_value_at ROps (dghost_step s j op bv) (e_t (s_env s) - delay) with
+                              | Some w => OVal w | None => ONaN end) /\
+      d_run_ok (fst (step ROps s op)) j delay (dghost_step s j op bv) r
+  end.
+
+Lemma delay_is_calc_on_buffer (s : St) j src delay bv (ops : list Op) :
+  DS s j src delay bv -> Forall (fun o => o <> Init) ops -> d_run_ok s j delay bv ops.
+Proof. revert s bv. induction ops as [|op r IH]; intros s bv H Al; simpl; auto.
+  inversion Al as [|? ? A1 A2]; subst.
+  destruct (step_DS s j src delay bv op H A1) as (H1 & H2 & H3). split; [|split; auto].
+  intros d d' E1 E2. split; [apply (H2 d d'); auto|].
+  destruct H1 as (_ & d'' & E3 & _ & _ & HI). rewrite E2 in E3. injection E3 as <-. apply (di_sorted _ _ _ HI). Qed.
+
+Lemma DS_init t vars trees machs j src delay bv :
+  nth_error machs j = Some (MD (mk_delay src delay)) -> DS (mkSt (env0 t vars) trees machs) j src delay bv.
+Proof. intros N. split; [reflexivity|]. exists (mk_delay src delay). split; [unfold dmach; simpl; rewrite N; reflexivity|].
+  split; [reflexivity|]. split; [reflexivity|].
+  assert (NF : forall A (v : A), ~ fresh (env0 t vars) 4 (ce0 v)) by (intros A v [F _]; simpl in F; discriminate).
+  constructor; unfold mk_delay; cbn [d_buf d_upd d_val]; [exact I | |].
+  - split; [simpl; lia|]. intros F. destruct (NF _ _ F).
+  - split; [simpl; lia|]. intros F. destruct (NF _ _ F). Qed.
+
+(** the initialization event (Delay::initializeVirtual: clear the buffer, append the current sample) keeps the invariant *)
+Lemma DI_d_init (E : Env) d bv : DI E d bv -> DI E (d_init ROps E d) bv.
+Proof. intros [Hs Hu Hv]. constructor; cbn [d_init d_buf d_upd d_val]; auto.
+  - simpl. auto.
+  - split; [simpl; discriminate|]. intros [_ O]. simpl in O. discriminate. Qed.
+
+(* ------------------------------------------------------------------ example *)
+Ltac rcmp := repeat match goal with
+  | |- context [Rleb ?a ?b] => first [replace (Rleb a b) with true by (symmetry; apply Rleb_true; lra)
+                                     | replace (Rleb a b) with false by (symmetry; apply Rleb_false; lra)]
+  | |- context [Rltb ?a ?b] => first [replace (Rltb a b) with true by (symmetry; apply Rltb_true; lra)
+                                     | replace (Rltb a b) with false by (symmetry; apply Rltb_false; lra)]
+  end.
+Ltac reval := repeat (rcbv; progress rcmp); rcbv.
+
+(** non-vacuity: Delay(time, 1/2) sampled at t=0 and t=1, asked at t=2: t - delay = 3/2 is after the newest sample, the
+    value is the extrapolation through (0,0),(1,1), which for this affine operand is exactly 3/2 *)
+Example delay_is_calc_on_buffer_example :
+  let s := mkSt (env0 0 []) [] [MD (mk_delay [PTime] (1/2))] in
+  let ops := [Realize 8; AutoUpd; SetTime 1; Realize 8; AutoUpd; SetTime 2; Realize 8; GetM 0] in
+  DS s 0%nat [PTime] (1/2) [] /\ Forall (fun o : Op => o <> Init) ops /\
+  exists v, nth_error (snd (run ROps s ops)) 7 = Some (OVal [v]) /\ v = 3/2.
+Proof. intros s ops. split; [apply DS_init; reflexivity|]. split; [repeat constructor; discriminate|].
+  unfold s, ops. reval. eexists. split; [reflexivity|]. field. Qed.
